@@ -27,7 +27,7 @@ ASSUMPTIONS = [
     "FITS files are written with astropy, text files with numpy.savetxt(fmt='%.17g')",
 ]
 COMPONENTS = {"real": ["pyxel.inputs.load_image / load_table", "pyxel.util.fit_into_array / load_cropped_and_aligned_image", "load_image and load_charge models inside run_mode", "real scratch filesystem (fsspec local)"], "stub": []}
-BUDGET = {"quick": {"n": 800, "wall": 100, "determinism": 4}, "thorough": {"n": 240000, "wall": 1500, "determinism": 12}}
+BUDGET = {"quick": {"n": 800, "wall": 100, "determinism": 4}, "thorough": {"n": 400000, "wall": 1500, "determinism": 12}}
 REQUIRED_REACH = ["home_relative_paths", "header_loaded", "relative_to_working_directory", "second_working_directory", "op:write", "op:load_image", "op:load_table", "op:run", "rewrite_then_run", "rewrite_same_mtime_size", "fmt:npy", "fmt:fits", "fmt:txt", "delim:tab", "delim:space", "delim:comma", "delim:bar", "delim:semicolon", "place:offset", "place:align", "no_overlap_rejected", "input_larger", "input_smaller", "model:load_image", "model:load_charge"]
 
 DELIMS = {"tab": "\t", "space": " ", "comma": ",", "bar": "|", "semicolon": ";"}
